@@ -1582,6 +1582,27 @@ def run(ctx):
             s = inner._to_stream()._aggregate_scan(lambda e: hl.int32(hl.scan.sum(e)) + x).to_array()
             return s.extend(s)
 
+        # nested binding sites: a value lifted at an outer site is used inside the scope of lets lifted at an inner site (names of
+        # lifted lets must stay distinct along every root-to-leaf path, or the inner binding captures the outer reference).
+        # Sharing means the same Python object, hence the helper functions.
+        def sq(y, extra):
+            return y * y + extra
+
+        def nest_map(x):
+            return hl.tuple([x, arr.map(lambda e: sq(e + 1, x) + sq(e + 2, x) + sq(e + 3, x))])
+
+        def nest_map1(x):
+            return hl.tuple([x, hl.range(3).map(lambda e: sq(e + 1, x))])
+
+        def nest_fold(x):
+            return hl.tuple([x, hl.fold(lambda acc, e: sq(acc + e, x) + sq(acc - e, x), 0, arr)])
+
+        def nest_cross(x1, x2):
+            return hl.tuple([x1, x2, arr.map(lambda e: sq(e + 1, x2) * sq(e + 2, x1))])
+
+        def nest3(x):
+            return hl.tuple([x, arr.map(lambda e: inner.map(lambda f: sq(f + e, x) + sq(e * 3, x)))])
+
         return [
             ('shared node is lifted and is also the root of an If branch at the same depth', lambda: (X + X) + hl.if_else(c, X, 0)),
             ('... in a table row', lambda: (lambda t2: t2.aggregate(hl.agg.collect(t2.y), _localize=False))(t.annotate(y=(Xr + Xr) + hl.if_else(t.idx > 1, Xr, 0)))),
@@ -1595,6 +1616,13 @@ def run(ctx):
             ('explode variable and element shared', lambda: inner.aggregate(lambda e: hl.agg.explode(lambda v: hl.agg.sum((v + e) * (v + e)), hl.range(e % 3)))),
             ('fold accumulator expression shared', lambda: hl.fold(lambda acc, e: (acc + e) * (acc + e), 0, arr)),
             ('bind value shared with body', lambda: hl.bind(lambda y: y + X * y, X)),
+            # nested binding sites: a value lifted at an outer site is used inside the scope of lets lifted at an inner site
+            # (names of lifted lets must stay distinct along every root-to-leaf path, or the inner binding captures the outer reference)
+            ('outer lifted value used inside a lambda body that lifts its own shared values', lambda: nest_map(hl.len(arr) * 10)),
+            ('outer lifted value (first ordinal) used inside a lambda body that lifts one shared value', lambda: nest_map1(hl.len(inner) * 10)),
+            ('outer lifted value used inside a fold body that lifts its own shared values', lambda: nest_fold(hl.len(arr) * 10)),
+            ('two outer lifted values crossed with two inner lifted values', lambda: nest_cross(hl.len(arr) * 10, hl.len(inner) * 7)),
+            ('three nested binding sites, outermost value used innermost', lambda: nest3(hl.len(arr) * 10)),
             ('scan and row expression shared in annotate', lambda: (lambda t2: t2.aggregate(hl.agg.sum(t2.s + t2.u), _localize=False))(t.annotate(s=hl.scan.sum(Xr) + hl.int64(Xr), u=hl.scan.count() + hl.scan.sum(Xr)))),
         ]
 
